@@ -232,9 +232,6 @@ def exec_case(case, facts, src=None):
                     hw = world if h["world"] == "same" else h["world"]
                     ho = dict(h["opts"])
                     ho["outdir"] = opts.get("outdir")
-                    core.fix_outdir(w1, ho)
-                    if opts.get("outdir") == "ABS":
-                        ho["outdir"] = core.out_abs(w1, dict(opts))
                     cfg, ods = W.materialize(hw)
                     io_faults, crash_at = None, None
                     if h["mode"] == "input_fault":
